@@ -122,6 +122,14 @@ def execEntryOp (st : DState) (env : Env) (name : String) (args : List String) (
     match parseItems (nat! n) rest with
     | some items => no <| resOutW (Map.extend cfg env items w) w
     | none => bad
+  | "extend_r0", n :: rest =>
+    match parseItems (nat! n) rest with
+    | some items => no <| resOutW (Map.extend cfg env items w) w
+    | none => bad
+  | "extend_r1", n :: rest =>
+    match parseItems (nat! n) rest with
+    | some items => no <| resOutW (Map.extend cfg env items w) w
+    | none => bad
   | "from_iter", n :: rest =>
     match parseItems (nat! n) rest with
     | some items => no <| resOutW (Map.fromIter cfg env items w) w
